@@ -30,6 +30,7 @@ var BadClasses = []badClass{
 	{"ask.nores", "unchanged", "alloc"},
 	{"ask.zero", "unchanged", "alloc"},
 	{"ask.negative", "unchanged", "alloc"},
+	{"ask.update.negative", "unchanged", "alloc"},
 	{"ask.phnotg", "unchanged", ""},
 	{"ask.dup", "unchanged", ""},
 	{"ask.unknownnode", "unchanged", "alloc"},
@@ -188,6 +189,17 @@ func (w *World) applyBad(op M, line M) {
 			x := goodAsk(a, fresh)
 			x.ResourcePerAlloc = sires(map[string]int64{"memory": 2, "pods": -1})
 			ask(x)
+		}
+	case "ask.update.negative":
+		// a key the core knows (outstanding ask or bound allocation) is sent again with a negative quantity
+		if k := w.anyKey(r, func(a *shimAsk) bool { return w.sAskOps[a.Key] != nil }); k != nil {
+			x := w.askFromOp(w.sAskOps[k.Key])
+			x.NodeID = k.Node
+			x.ResourcePerAlloc = sires(map[string]int64{"memory": int64(r%3 + 1), "pods": -1})
+			line["app"], line["key"] = k.App, k.Key
+			ask(x)
+		} else {
+			line["skipped"] = "no known key"
 		}
 	case "ask.phnotg":
 		if a, ok := needApp(); ok {
